@@ -14,7 +14,9 @@ BASE = Config('sse2', 'c++14', '-O2')         # the configuration of the pinned 
 
 def corpus(sd, tr):
     q = tr == 'quick'; progs = []
-    def take(cases, n): return cases[::max(1, len(cases) // n)][:n]
+    def take(cases, n):
+        # a seeded sample (a fixed stride aliases with the generators' type rotation: every 4th case has the same element type)
+        return sorted(LCG(sd * 31 + len(cases)).sample(cases, n), key=lambda c: c['id'])
     cs = take(c01.gen_cases(sd, 'quick'), 60 if q else 200); progs.append(('matmul', c01.cpp_source(cs, False), 'c++14'))
     cs = take(c17.gen_cases(sd, 'quick'), 40 if q else 120); progs.append(('tmatmul', c17.cpp_source(cs), 'c++14'))
     cs = take(c02.gen_cases(sd, 'quick'), 60 if q else 200); progs.append(('expressions', c02.cpp_source(cs), 'c++14'))
